@@ -3,6 +3,8 @@
 package mimetype
 
 import (
+	"bufio"
+	"bytes"
 	"errors"
 	"fmt"
 	"io"
@@ -26,8 +28,38 @@ func vfExecMore3(f []string, op string) (string, bool) {
 		errAt, _ := strconv.Atoi(f[5])
 		r := &vfScriptReader{data: data, chunks: chunks, eofWithData: f[4] == "1", errAt: errAt}
 		SetLimit(uint32(lim64))
-		m, err := DetectReader(r)
+		var rd io.Reader = r
+		if len(f) > 6 {
+			// the same script behind a standard wrapper: what the wrapper takes from the script beyond what
+			// DetectReader takes from the wrapper is the wrapper's business (buffering), so `pos` is not compared
+			switch f[6] {
+			case "bufio":
+				rd = bufio.NewReader(r)
+			case "bufio16":
+				rd = bufio.NewReaderSize(r, 16)
+			case "limited":
+				rd = io.LimitReader(r, int64(len(data))+10)
+			case "multi":
+				rd = io.MultiReader(r, bytes.NewReader(nil))
+			case "bytes":
+				if errAt < 0 {
+					rd = bytes.NewReader(data)
+				}
+			case "strings":
+				if errAt < 0 {
+					rd = strings.NewReader(string(data))
+				}
+			case "buffer":
+				if errAt < 0 {
+					rd = bytes.NewBuffer(append([]byte{}, data...))
+				}
+			}
+		}
+		m, err := DetectReader(rd)
 		d := Detect(data)
+		if len(f) > 6 {
+			return fmt.Sprintf("%s => %s %s %s %s", op, vfErrClass(err), "w", vfRes(m), vfRes(d)), true
+		}
 		return fmt.Sprintf("%s => %s %d %s %s", op, vfErrClass(err), r.pos, vfRes(m), vfRes(d)), true
 	case "file": // file lim hex
 		lim64, _ := strconv.ParseUint(f[1], 10, 32)
@@ -223,6 +255,10 @@ func (g *vfGen) genC05() {
 			}
 		}
 		g.emit(vfOp("reader", lim, in, g.chunks(len(in)), g.intn(2), errAt))
+		if i%4 == 0 {
+			w := []string{"bufio", "bufio16", "limited", "multi", "bytes", "strings", "buffer"}[g.intn(7)]
+			g.emit(vfOp("reader", lim, in, g.chunks(len(in)), g.intn(2), errAt, w))
+		}
 		if i%10 == 0 {
 			g.emit(vfOp("file", lim, in))
 		}
@@ -236,6 +272,15 @@ func (g *vfGen) genC05() {
 		b[sz-1] = 0 // a binary byte at the very end
 		g.emit(vfOp("reader", 0, b, g.chunks(sz), 1, -1))
 		g.emit(vfOp("file", 0, b))
+	}
+	for _, w := range []string{"bufio", "bufio16", "limited", "multi", "bytes", "strings", "buffer"} {
+		for _, pos := range []int{4095, 4096, 5000, 8191} {
+			b := g.textBytes(9000)
+			b[pos] = 0
+			for _, lim := range []int{0, 8192, pos + 1, pos, 3072, 16, 5} {
+				g.emit(vfOp("reader", lim, b, "~", 0, -1, w))
+			}
+		}
 	}
 	g.emit("filebad missing")
 	g.emit("filebad dir")
